@@ -215,3 +215,41 @@ def trace_validation(ctx, rnd):
                        'box': [int(b.ixmin) - tx, int(b.ixmax) - tx, int(b.iymin) - ty, int(b.iymax) - ty],
                        'grid': [[int(v) for v in row] for row in c], 'frame': vars(fr)})
     validate_events(ctx, events, 'C02')
+    sliver_stage(ctx, rnd, 'C02', 60 if ctx.tier == 'quick' else 800)
+
+
+def sliver_stage(ctx, rnd, pid, count):
+    """Polygons confined to a single pixel row or column (thin slivers, tiny triangles) on the 1/8-pixel lattice: their
+    centre and sub-pixel (n = 2, 4) masks are the sample counts of Geometry!MaskRef like those of any other polygon."""
+    events = []
+    U = 8
+    for i in range(count):
+        n = rnd.choice([1, 2, 4])
+        nv = rnd.choice([3, 3, 4, 5])
+        row = rnd.randint(-3, 3)
+        while True:
+            long_ = [rnd.randint(-30, 30) for _ in range(nv)]
+            short = [row * U + rnd.randint(-3, 3) for _ in range(nv)]        # strictly inside pixel row `row` (edges at +-4)
+            vs = [[a, b] for a, b in zip(long_, short)]
+            if len({tuple(v) for v in vs}) >= 3:
+                break
+        if i % 2:
+            vs = [[b, a] for a, b in vs]                                      # a single pixel column
+        s = {'k': 'polygon', 'vs': vs, 'inc': 'absent'}
+        tx, ty = rnd.choice([(0, 0), (3, -5), (1000, 77)])
+        fr = geom.Frame(U, 1.0, float(tx), float(ty), rnd.randint(0, 5))
+        try:
+            region = geom.build(s, fr)
+            mask = region.to_mask(mode='center') if n == 1 else region.to_mask(mode='subpixels', subpixels=n)
+        except Exception as ex:
+            ctx.violation(f"{pid}|trace|sliver|{type(ex).__name__}", f'to_mask of a sliver polygon raised {ex!r}', {'shape': s, 'n': n})
+            continue
+        c, frac = counts(mask, n)
+        if frac > 1e-9:
+            ctx.violation(f'{pid}|maskfrac|sliver', f'mask values are not multiples of 1/n^2 (off by {frac:g})', {'shape': s, 'n': n})
+            continue
+        b = mask.bbox
+        events.append({'ev': 'mask', 'shape': s, 'U': U, 'n': n, 'exact': True,
+                       'box': [int(b.ixmin) - tx, int(b.ixmax) - tx, int(b.iymin) - ty, int(b.iymax) - ty],
+                       'grid': [[int(v) for v in row_] for row_ in c], 'frame': vars(fr)})
+    validate_events(ctx, events, pid)
